@@ -835,7 +835,77 @@ func (sc *scen) runC18() {
 		if !sc.tick() {
 			return
 		}
+		if round == 0 && rng.Intn(3) == 0 {
+			if !sc.incomeUpdate() {
+				return
+			}
+		}
 	}
+}
+
+// incomeUpdate: the web wallet's "send everything, keep the income" — a wallet pays all it can afford with a YIELDING
+// rest of 0; once that is confirmed the recipient spends what it received (the rest's sibling output) and that is
+// confirmed too; blocks pass, income accrues on the empty rest; then the wallet asks again and pays from it.  Every
+// answer is checked like any other (doInfo / post evaluate C18's clauses).  false = the validator stopped producing.
+func (sc *scen) incomeUpdate() bool {
+	rng := sc.rng
+	o := sc.owners[rng.Intn(len(sc.owners))]
+	next := sc.last() + sc.s.Interval
+	var balance uint64
+	for _, v := range sc.values(sc.listing(o.Address), next) {
+		balance += v
+	}
+	if balance < sc.s.MinFee+1 {
+		return true
+	}
+	amount := balance - sc.s.MinFee
+	q := infoQuery{Address: o.Address, Value: strconv.FormatUint(amount, 10), Cons: "true", Now: sc.last() + rng.Int63n(sc.s.Interval), ViaGin: rng.Intn(2) == 0, Cat: "post:income-update-all"}
+	ans, ok := sc.doInfo(q)
+	if !ok || ans.Status != 200 || ans.Rest != 0 || !sc.canYieldRest(o, ans) {
+		return true
+	}
+	first := sc.post(o, q, amount, ans, true, "")
+	if first == nil {
+		return true
+	}
+	sc.st.observe("income_update_posted", first.Id)
+	for k := 0; k < 2; k++ {
+		if !sc.tick() {
+			return false
+		}
+	}
+	// the recipient spends everything it holds, the sibling of the empty rest included
+	if spent := sc.askAndPostAll(sc.R); spent != nil {
+		sc.st.observe("income_update_sibling_spent", spent.Id)
+	}
+	for k := 0; k < 2+rng.Intn(4); k++ {
+		if !sc.tick() {
+			return false
+		}
+	}
+	if again := sc.askAndPost(o, sc.last()+rng.Int63n(sc.s.Interval)); again != nil {
+		sc.st.observe("income_update_paid_from_accrued_income", again.Id)
+	}
+	return sc.tick()
+}
+
+// askAndPostAll: the wallet consolidates everything it holds into one payment (all inputs, affordable amount).
+func (sc *scen) askAndPostAll(o *node.Wallet) *sentTx {
+	next := sc.last() + sc.s.Interval
+	var balance uint64
+	for _, v := range sc.values(sc.listing(o.Address), next) {
+		balance += v
+	}
+	if balance < sc.s.MinFee+1 {
+		return nil
+	}
+	amount := balance - sc.s.MinFee - 1
+	q := infoQuery{Address: o.Address, Value: strconv.FormatUint(amount, 10), Cons: "true", Now: sc.last() + sc.rng.Int63n(sc.s.Interval), Cat: "post:consolidate-all"}
+	ans, ok := sc.doInfo(q)
+	if !ok || ans.Status != 200 {
+		return nil
+	}
+	return sc.post(o, q, amount, ans, false, "")
 }
 
 // inflight: the wallet pays again while its previous payment sits in the validator's last block, unconfirmed.
